@@ -439,6 +439,24 @@ func gen(r *vh.Rand, tier string, n int) []in {
 			{Timeout: 3},
 		}},
 	}
+	// restart on the real code: two calls blocked, snapd restarts (state.ReadState of the saved JSON): the blocked calls are
+	// gone, the notices are kept (a call without After returns them at once on the new State), a call waiting for something
+	// newer blocks on the new State and is woken by an addition at a clock reading that did not advance across the restart
+	ins = append(ins, in{Ops: []opIn{
+		{Add: &addIn{Clock: 100, Type: "warning", Key: "a"}},
+		{Add: &addIn{Clock: 100, User: u32(1000), Type: "change-update", Key: "b"}},
+		{Wait: after(101)},
+		{Wait: &filterIn{User: u32(1001), Types: []string{}, Keys: []string{"b"}}},
+		{Restart: true},
+		{Wait: all},
+		{Wait: after(101)},
+		{Add: &addIn{Clock: 100, Type: "warning", Key: "a", RA: 50}},
+		{Add: &addIn{Clock: 90, Type: "warning", Key: "a"}},
+		{Timeout: 1},
+		{Restart: true},
+		{Wait: after(102)},
+		{Add: &addIn{Clock: 90, Type: "warning", Key: "b"}},
+	}})
 	if n <= 0 {
 		n = 100
 	}
